@@ -90,6 +90,20 @@ def outputs(p, X, timed, light=False):
     return outs
 
 
+def shared_mutables(ka, kb, path="cov_func"):
+    """paths of mutable attribute objects (list / dict / set / NumPy array) that two kernel expressions share by identity"""
+    out = []
+    if ka is None or kb is None or not hasattr(ka, "__dict__") or not hasattr(kb, "__dict__"):
+        return out
+    for name, va in vars(ka).items():
+        vb = vars(kb).get(name)
+        if hasattr(va, "__dict__") and callable(va):          # a nested kernel
+            out += shared_mutables(va, vb, path + "." + name)
+        elif isinstance(va, (list, dict, set, np.ndarray)) and va is vb:
+            out.append(path + "." + name)
+    return out
+
+
 def same_outputs(a, b):
     bad = []
     for k in a:
@@ -223,6 +237,16 @@ def run(ctx):
             if c is not None:
                 shared = [k for k in p._state_variables if getattr(c, k) is getattr(p, k) and not isinstance(getattr(p, k), (int, float))]
                 aliased = c._state_variables is p._state_variables or c.cov_func is p.cov_func
+                # mutable attributes anywhere in the kernel expression (list-valued active_dims ...) must not be shared either:
+                # by the copy, by from_dict(to_dict()), or by two predictors read from one dictionary
+                d_once = p.to_dict()
+                q_a, q_b = Predictor.from_dict(d_once), Predictor.from_dict(d_once)
+                nested = (["copy:" + x for x in shared_mutables(c.cov_func, p.cov_func)]
+                          + ["from_dict(to_dict()):" + x for x in shared_mutables(q_a.cov_func, p.cov_func)]
+                          + ["two from_dict of one dict:" + x for x in shared_mutables(q_a.cov_func, q_b.cov_func)])
+                if nested:
+                    ctx.violation("C07|%s|copy-aliasing|kernel" % cname, "a restored predictor shares a mutable kernel attribute with its source",
+                                  {"class": cname, "shared": nested, "kernel": repr(p.cov_func)})
                 c._state_variables.add("zzz")
                 c.mu = 123.0
                 mutated = "zzz" in p._state_variables or p.mu == 123.0
